@@ -575,6 +575,9 @@ func C16() int {
 	}
 	ops := c03Ops()
 	for _, el := range c03Elems {
+		if el.tag != "" {
+			continue
+		}
 		var rec func(h []int, st c03State, d int)
 		rec = func(h []int, st c03State, d int) {
 			if len(h) > 0 {
